@@ -408,4 +408,33 @@ theorem rp66v1TifR_fail_printable (b : Bytes) (hp : Printable b) : rp66v1TifRTes
     have h11 := printable_byteAt b hp 11 (by omega)
     exact rp66v1TifR_fail_next b (by omega)
 
+
+/-! ### weaker forms used for encoded LIS files -/
+
+theorem thirdWord_ne' (b : Bytes) (hb : ∀ i, 8 ≤ i → i < 12 → byteAt b i < 256) (h : ¬ word288 b) : tifThirdWord b ≠ 288 := by
+  have h8 := hb 8 (by omega) (by omega)
+  have h9 := hb 9 (by omega) (by omega)
+  have h10 := hb 10 (by omega) (by omega)
+  have h11 := hb 11 (by omega) (by omega)
+  unfold word288 at h
+  unfold tifThirdWord le32 be32
+  simp only [show 8 + 1 = 9 from rfl, show 8 + 2 = 10 from rfl, show 8 + 3 = 11 from rfl]
+  split <;> omega
+
+theorem high_byteAt_not_ascii (b : Bytes) (i : Nat) (hi : i < 256) (h : 128 ≤ byteAt b i) :
+    (b.take 256).all (fun c => decide (c < 128)) = false ∧ b.all (fun c => decide (c < 128)) = false := by
+  have hlen : i < b.length := by
+    by_cases hc : i < b.length
+    · exact hc
+    · exfalso
+      have : byteAt b i = 0 := by
+        simp [byteAt, List.getD_eq_getElem?_getD, List.getElem?_eq_none (by omega : b.length ≤ i)]
+      omega
+  apply high_byte_not_ascii b 256
+  refine ⟨byteAt b i, ?_, h⟩
+  have e : byteAt b i = (b.take 256)[i]'(by simp [List.length_take]; omega) := by
+    simp [byteAt, List.getD_eq_getElem?_getD, List.getElem?_eq_getElem hlen, List.getElem_take]
+  rw [e]
+  exact List.getElem_mem _
+
 end TD.C20
